@@ -48,6 +48,7 @@ type ParseObs struct {
 	Nontrivial        map[string]bool        `json:"nontrivial"`
 	Oracle            map[string][]OracleHit `json:"oracle"`
 	Sample            map[string]interface{} `json:"sample"`
+	HelpText          string                 `json:"help,omitempty"`
 	term              *T
 }
 
@@ -111,14 +112,59 @@ func floatTable(d *getoptions.VerifDump, argv []string) (map[string]*float64, []
 		order = append(order, s)
 	}
 	for _, t := range argv {
-		for i := 0; i <= len(t); i++ {
-			add(t[i:])
+		if len(t) <= 64 {
+			for i := 0; i <= len(t); i++ {
+				add(t[i:])
+			}
+			continue
+		}
+		// long tokens: the token and what follows its first '=' signs and first bytes
+		add(t)
+		n := 0
+		for i := 0; i < len(t) && n < 8; i++ {
+			if t[i] == '=' || i < 6 {
+				add(t[i:])
+				add(t[i+1:])
+				n++
+			}
 		}
 	}
 	return tab, order
 }
 
 // runParse builds the program, runs Parse on argv and renders the Coq case.
+// repeatRuns - C20: how often every case is executed again (fresh definition each time; Go
+// randomises map iteration order per range statement) to compare all observables
+var repeatRuns = 0
+
+func (obs *ParseObs) repeat(p *ProgDef, argv []string, n int) {
+	first := fmt.Sprintf("%q|%v|%q|%q|%q|%q", obs.Remaining, obs.HasErr, obs.Err, obs.Writer, obs.Values, obs.HelpText)
+	for i := 1; i < n; i++ {
+		b, err := Build(p)
+		if err != nil {
+			obs.Oracle["C20"] = append(obs.Oracle["C20"], OracleHit{Key: "definition-flaky", What: "the definition panics in one run and not in another"})
+			return
+		}
+		buf := new(bytes.Buffer)
+		getoptions.Writer = buf
+		rem, perr := b.Opt.Parse(append([]string{}, argv...))
+		d := b.Opt.VerifDumpTree()
+		vals := []string{}
+		for _, o := range d.Options {
+			vals = append(vals, fmt.Sprintf("%s(%s)=%s called=%v as=%q", o.Name, kindNames[o.Kind], tValue(o).SexpString(), o.Called, o.UsedAlias))
+		}
+		es := ""
+		if perr != nil {
+			es = perr.Error()
+		}
+		again := fmt.Sprintf("%q|%v|%q|%q|%q|%q", rem, perr != nil, es, buf.String(), vals, b.Opt.Help())
+		if again != first {
+			obs.Oracle["C20"] = append(obs.Oracle["C20"], OracleHit{Key: "nondeterministic", What: fmt.Sprintf("run %d differs: first=%s again=%s", i, first, again)})
+			return
+		}
+	}
+}
+
 func runParse(idx int, seed int64, p *ProgDef, argv []string) *ParseObs {
 	return runParseWith(seed, p, argv, nil)
 }
@@ -190,6 +236,10 @@ func runParseWith(seed int64, p *ProgDef, argv []string, hook func(*Built)) *Par
 	}
 	obs.features()
 	obs.accessPaths(b, p, post)
+	obs.HelpText = b.Opt.Help()
+	if repeatRuns > 1 {
+		obs.repeat(p, argv, repeatRuns)
+	}
 	obs.Sample = map[string]interface{}{"mode": modeNames[p.Mode], "argv": obs.ArgvQ, "remaining": quoteAll(obs.Remaining), "err": obs.Err, "options": len(pre.Options), "commands": len(pre.Root.CommandKeys)}
 
 	specs := []*T{}
@@ -254,6 +304,7 @@ func cmdParse(args []string) {
 	coqN := fs.Int("coqn", 40, "number of cases in the Coq output")
 	obsOut := fs.String("obs", "obs.jsonl", "observation output")
 	mask := fs.String("mask", "mask_all", "comparison mask (Coq term)")
+	fs.IntVar(&repeatRuns, "repeat", 0, "C20: run every case this many times and compare all observables")
 	fs.Parse(args)
 
 	g := NewGen(*seed)
